@@ -116,7 +116,8 @@ def s_scatter_all_static(ctx):
     I.models[f_numpy] = lambda interp: arr
     arr.fields["tolist"] = f_tolist
     tens.fields["numpy"] = f_numpy
-    indices = W.value("indices", dims=[k, 1], rt=[], dtype=ir.DataType.INT64, const=(tens if known else None), initializer=known)
+    idx_ovr = known and ctx.choose(2, "indices initializer is also a graph input") == 1
+    indices = W.value("indices", dims=[k, 1], rt=[], dtype=ir.DataType.INT64, const=(tens if known else None), initializer=known, graph_input=idx_ovr)
     red = [None, "none", "add", "mul"][ctx.choose(4, "reduction attribute")]
     node = W.node("ScatterND", [data, indices, updates], attrs=({} if red is None else {"reduction": red}))
     I.models[ir.Attr.as_string] = lambda interp, a: a.fields["value"] if isinstance(a, SObj) else a.as_string()
@@ -133,6 +134,8 @@ def s_scatter_all_static(ctx):
     if not fired:
         ctx.cover("ScatterAllStatic.check_failed")
         return
+    ctx.check("C05.rules.ScatterAllStatic.does_not_fire_on_an_overridable_initializer", not idx_ovr,
+              "C05 / C04: 'initializers that are also graph inputs ... are never folded into constants'")
     ctx.check("C05.rules.ScatterAllStatic.fires_only_without_a_reduction", red in (None, "none"),
               "C05: 'same outputs ... equal values' — ScatterND with reduction add/mul combines updates WITH data")
     d0 = drt[0]
@@ -237,8 +240,10 @@ def s_collapse_slice(ctx):
                 t = ctx.int(f"{tag}{i}")
                 ctx.witness[f"{tag}{i}"] = t
                 items.append(SInt(t))
-        vals[tag] = (known, items)
-        return W.value(tag, dims=[n], rt=[], dtype=ir.DataType.INT64, const=(W.tensor(items, ir.DataType.INT64) if known else None), initializer=known)
+        ovr = known and tag == "end" and ctx.choose(2, "the ends operand is an initializer that is also a graph input") == 1
+        vals[tag] = (known, items, ovr)
+        return W.value(tag, dims=[n], rt=[], dtype=ir.DataType.INT64, const=(W.tensor(items, ir.DataType.INT64) if known else None), initializer=known,
+                       graph_input=ovr)
     starts, ends, steps = operand("start"), operand("end"), operand("step")
     axis = [-2, -1, 0, 1][ctx.choose(4, "axis")]
     axes = operand("axis", fixed=axis)
@@ -254,6 +259,8 @@ def s_collapse_slice(ctx):
         return
     ok = all(vals[k][0] and len(vals[k][1]) == 1 for k in ("start", "end", "step", "axis"))
     ctx.check("C05.rules.collapse_slice.fires_only_for_constant_single_axis_slices", ok, CL09)
+    ctx.check("C05.rules.collapse_slice.does_not_fire_on_an_overridable_initializer", not any(v[2] for v in vals.values()),
+              "C05 / C04: 'initializers that are also graph inputs ... are never folded into constants'")
     if not ok:
         return
     s, e, st = (term(vals[k][1][0]) for k in ("start", "end", "step"))
@@ -296,7 +303,9 @@ def s_unsqueeze_unsqueeze(ctx):
         kind = ["const 1-d", "const 0-d", "two elements", "unknown"][ctx.choose(4, f"{tag} is")]
         items = [SInt(t)] if kind != "two elements" else [SInt(t), SInt(t)]
         const = None if kind == "unknown" else W.tensor(items, ir.DataType.INT64, ndim=(0 if kind == "const 0-d" else 1))
-        v = W.value(tag, dims=None, rt=[], dtype=ir.DataType.INT64, const=const, initializer=const is not None)
+        ovr = const is not None and tag == "axes2" and ctx.choose(2, "axes2 initializer is also a graph input") == 1
+        v = W.value(tag, dims=None, rt=[], dtype=ir.DataType.INT64, const=const, initializer=const is not None, graph_input=ovr)
+        v.ovr = ovr
         from .c05_rules import with_producer
         with_producer(I, v, None)
         return v, kind
@@ -307,6 +316,8 @@ def s_unsqueeze_unsqueeze(ctx):
     if not fired:
         ctx.cover("UnsqueezeUnsqueeze.check_failed")
         return
+    ctx.check("C05.rules.UnsqueezeUnsqueeze.does_not_fire_on_an_overridable_initializer", not (a1.ovr or a2.ovr),
+              "C05 / C04: 'initializers that are also graph inputs ... are never folded into constants'")
     ctx.check("C05.rules.UnsqueezeUnsqueeze.fires_only_for_known_single_nonnegative_axes",
               z3.And(z3.BoolVal(k1 in ("const 1-d", "const 0-d") and k2 in ("const 1-d", "const 0-d")), v1 >= 0, v2 >= 0), CL09)
     made = []
